@@ -118,10 +118,12 @@ def run_action(a: dict):
         from a816.program import Program
 
         d = a["dir"]
+        if d.startswith("ABS:"):
+            d = os.path.join(os.getcwd(), d[4:])
         os.makedirs(d, exist_ok=True)
         for name, content in a["files"].items():
             with open(os.path.join(d, name), "wb") as f:
-                f.write(content.encode("utf-8") if isinstance(content, str) else bytes(content))
+                f.write(content.replace("{DIR}", d).encode("utf-8") if isinstance(content, str) else bytes(content))
         prog = Program()
         try:
             return prog.assemble_as_patch(os.path.join(d, "main.s"), os.path.join(d, "out.ips"))
@@ -188,9 +190,9 @@ def history_action(rng: random.Random) -> dict:
     rom = rng.choice([None, "low", "high", "low2"])
     extra = rng.random()
     if extra > 0.95:
-        d = rng.choice(["proj_a", "proj_b/src", os.path.join(os.getcwd(), "proj_abs")])
+        d = rng.choice(["proj_a", "proj_b/src", "ABS:proj_abs"])       # ABS: an absolute path, below the directory the history runs in
         return {"what": "other_project", "via": "api_project", "dir": d, "src": "", "rom": None,
-                "files": {"main.s": f"*={addr:#x}\n.db 1\n.include '{d}/common_inc.s'\n", "common_inc.s": ".db 0x63, 0x03\n", "common_blob.bin": b"\x63\x03\x60"}}
+                "files": {"main.s": f"*={addr:#x}\n.db 1\n.include '{{DIR}}/common_inc.s'\n", "common_inc.s": ".db 0x63, 0x03\n", "common_blob.bin": b"\x63\x03\x60"}}
     if extra < 0.04:
         # a source file that is no valid UTF-8 (a comment saved as Latin-1) through a file front end: it fails, and that is all
         return {"what": "undecodable_source", "via": rng.choice(["api", "cli"]), "fmt": "patch" if rng.random() < 0.5 else "sfc", "rom": rng.choice(["low", "high"]),
